@@ -56,10 +56,10 @@ func evalC20(c c20Case, rec *hx.Rec) error {
 		}
 	})
 	if !returned {
-		if deadlock {
-			return fmt.Errorf("Execute(n=%d, m=%d) did not return: %s", c.N, c.M, dump)
+		if deadlock || hx.Responsive(5*time.Second) {
+			return fmt.Errorf("Execute(n=%d, m=%d) did not return within 2 minutes while the process stayed responsive: %s", c.N, c.M, dump)
 		}
-		panic(hx.Inconclusive{Msg: "Execute exceeded the watchdog: " + dump})
+		panic(hx.Inconclusive{Msg: "Execute exceeded the watchdog on an unresponsive machine: " + dump})
 	}
 	if perr != nil {
 		return fmt.Errorf("Execute(n=%d, m=%d): %w", c.N, c.M, perr)
